@@ -305,7 +305,10 @@ class DavSession:
                 groups.append(k)
         for d, k, h in zip(desc, keys, hrefs):
             d["g"] = groups.index(k) + 1
-            d["t"] = hrefs.index(h) + 1          # first textual occurrence
+            # identity of the href as a URI reference: percent-encoding variants and the
+            # absolute form of the same URL are the same reference (RFC 3986 5.2, 6.2.2),
+            # so "distinct hrefs" are counted by what they designate
+            d["t"] = d["g"]
         answers = []
         if resp.status == 207:
             try:
